@@ -118,7 +118,8 @@ class RabbitMessageBroker(MessageBrokerT):
                 extra=logger_extra,
             )
             return
-        await self._channel.basic_ack(delivery_tag)
+        # the delivery tag is forgotten already: the frame has to be sent even if we get cancelled
+        await asyncio.shield(self._channel.basic_ack(delivery_tag))
 
     async def nack(self, key: RoutingKeyT) -> None:
         logger_extra = {"routing_key": key}
@@ -131,7 +132,9 @@ class RabbitMessageBroker(MessageBrokerT):
                 extra=logger_extra,
             )
             return
-        await self._channel.basic_nack(delivery_tag, requeue=False)  # will trigger dlx
+        await asyncio.shield(
+            self._channel.basic_nack(delivery_tag, requeue=False),  # will trigger dlx
+        )
 
     async def reject(self, key: RoutingKeyT) -> None:
         logger_extra = {"routing_key": key}
@@ -144,7 +147,7 @@ class RabbitMessageBroker(MessageBrokerT):
                 extra=logger_extra,
             )
             return
-        await self._channel.basic_reject(delivery_tag, requeue=True)
+        await asyncio.shield(self._channel.basic_reject(delivery_tag, requeue=True))
 
     async def requeue(
         self,
